@@ -197,7 +197,7 @@ func TestC15(t *testing.T) {
 		fmt.Println("REPLAY case passed")
 		return
 	}
-	ev.Rule("fresh-process probes: the first conversion of a process for 7 source types x 3 helpers x parallelism {1,2,3,6,7,16,300}, each probe once as the first action of a process, plus generated orders and environment presets; rapid: source image of every standard type (RGBA64, NRGBA64, RGBA, NRGBA, YCbCr x 6 subsamplings, NYCbCrA, Gray, Gray16, Alpha, Alpha16, CMYK, Paletted, opaque wrapper), width/height 0..9, origin in [-6,6]^2 (non-negative for YCbCr), optionally a sub-image of a larger parent, pixel bytes prng/0xff/0/ramp; parallelism in {1,2,3,7,16,rows+5}; 3 helpers. Plus 128x96 crops of 1280x1024 parents near the top, middle and bottom; banners (1-3 rows of 64..20000 pixels, widths around powers of two, non-zero x origins, sub-images; a tenth of the rapid images and a sweep over every type x helper), a fixed cross-product types x helpers x parallelism on awkward geometry, and (thorough) all 2^24 YCbCr triples and every byte value in every channel position. non-trivial = distinct case whose source is handled by a hand-written loop, or has non-zero origin, or parallelism > rows")
+	ev.Rule("fresh-process probes: the first conversion of a process for 7 source types x 3 helpers x parallelism {1,2,3,6,7,16,300}, each probe once as the first action of a process, plus generated orders and environment presets; rapid: source image of every standard type (RGBA64, NRGBA64, RGBA, NRGBA, YCbCr x 6 subsamplings, NYCbCrA, Gray, Gray16, Alpha, Alpha16, CMYK, Paletted, opaque wrapper), width/height 0..9, origin in [-6,6]^2 (non-negative for YCbCr, plus fixed YCbCr pictures of every subsampling at even negative origins with a positive far corner, where the standard library's chroma offsets are in range), optionally a sub-image of a larger parent, pixel bytes prng/0xff/0/ramp; parallelism in {1,2,3,7,16,rows+5}; 3 helpers. Plus 128x96 crops of 1280x1024 parents near the top, middle and bottom; banners (1-3 rows of 64..20000 pixels, widths around powers of two, non-zero x origins, sub-images; a tenth of the rapid images and a sweep over every type x helper), a fixed cross-product types x helpers x parallelism on awkward geometry, and (thorough) all 2^24 YCbCr triples and every byte value in every channel position. non-trivial = distinct case whose source is handled by a hand-written loop, or has non-zero origin, or parallelism > rows")
 	ev.Assume("image/draw.Draw with draw.Src is the reference conversion")
 	ev.ProbeOrders(ev.Pick(1, 10))
 	// small crops of large parents (a thumbnail region of a 5 MB frame buffer), near the top, the middle and the bottom:
@@ -249,6 +249,23 @@ func TestC15(t *testing.T) {
 			}
 		}
 		ev.Class("widened-from-8-bit-nearly-opaque", int64(nw))
+		// subsampled YCbCr pictures whose rectangle starts at even negative coordinates: there the standard library's
+		// chroma offsets (truncating division) stay inside the planes, and what YCbCrAt returns is what a conversion yields
+		ny := 0
+		for ratio := 0; ratio < 6; ratio++ {
+			for ri, r := range [][4]int{{-4, -4, 6, 6}, {-8, -2, 5, 7}, {-6, -2, 3, 9}} {
+				for hi, helper := range []string{"NRGBA", "RGBA", "RGBA64"} {
+					c := Case{Src: img.Spec{Type: "YCbCr", Ratio: ratio, Rect: r, Parent: r, Fill: "prng", Seed: uint64(ratio*9+ri*3+hi) + ev.Seed()}, Helper: helper, Par: []int{1, 3, 16}[(ratio+ri+hi)%3]}
+					ev.Eval(1)
+					ny++
+					ev.NT(ev.Hash("ycc-negative", c))
+					if k, w, _ := check(c); k != "" {
+						ev.Violation("convert", c.Helper+"/"+k, w, c)
+					}
+				}
+			}
+		}
+		ev.Class("ycbcr-even-negative-origins", int64(ny))
 	}
 	// fixed cross product on awkward geometry
 	for _, typ := range img.Types {
